@@ -94,7 +94,7 @@ ShiftRows == << QRowV(ShiftGap, Change(17, "C"), <<"A", "-">>), QRowV(ShiftGap, 
                 QRowV(ShiftGap, Genome, <<"A", "-">>), QRowV(ShiftGap, Genome, <<"-", "A">>) >>
 ShiftVecs == {[id |-> "shift-" \o ToString(k), kind |-> "anno", R |-> RefRow(ShiftGap), qs |-> ShiftRows, feats |-> Layouts[k], runs |-> RunsFor(k)] : k \in {1, 2, 4}}
 RefNamedVecs == {[id |-> "refnamed-" \o ToString(k), kind |-> "anno", R |-> RefRow(Gappings[1]), qs |-> SubSeq(Rows(Gappings[1]), 30, 50), feats |-> Layouts[k],
-                  refnamed |-> 3, runs |-> << Run("variants-annoref", "gb", TRUE, -1, -1, FALSE, 0, 1, FALSE), Run("variants-annoref", "gff", TRUE, -1, -1, FALSE, 0, 2, FALSE),
+                  refnamed |-> 1, runs |-> << Run("variants-annoref", "gb", TRUE, -1, -1, FALSE, 0, 1, FALSE), Run("variants-annoref", "gff", TRUE, -1, -1, FALSE, 0, 2, FALSE),
                                              Run("samvar-annoref", "gb", TRUE, -1, -1, FALSE, 0, 1, FALSE), Run("samvar-annoref", "gff", TRUE, -1, -1, FALSE, 0, 2, FALSE),
                                              Run("samvar-annoref", "gb", FALSE, -1, -1, TRUE, 0, 1, FALSE), Run("samvar-annoref", "gff", FALSE, -1, -1, TRUE, 0, 1, FALSE) >>] : k \in {1, 2}}
 AnnoVecs == ShiftVecs \cup RefNamedVecs \cup {[id |-> "anno-" \o ToString(k) \o "-" \o ToString(g), kind |-> "anno", R |-> RefRow(Gappings[g]), qs |-> Rows(Gappings[g]),
